@@ -130,3 +130,56 @@ func Conservation(h []Op, init, remaining []int) bool {
 	}
 	return true
 }
+
+// GOp is an operation of an arbitrary sequential object: Apply checks the recorded result against the
+// state and returns the successor state (ok=false: the result is impossible in this state).
+type GOp struct {
+	Inv, Res int
+	Apply    func(s map[int]int) (map[int]int, bool)
+}
+
+// Generic: Wing–Gong search for a linearization of h from the initial state.
+func Generic(h []GOp, init map[int]int) bool {
+	done := make([]bool, len(h))
+	return gsearch(h, done, init, len(h))
+}
+
+func gsearch(h []GOp, done []bool, s map[int]int, left int) bool {
+	if left == 0 {
+		return true
+	}
+	for i := range h {
+		if done[i] {
+			continue
+		}
+		minimal := true
+		for j := range h {
+			if !done[j] && j != i && h[j].Res <= h[i].Inv {
+				minimal = false
+				break
+			}
+		}
+		if !minimal {
+			continue
+		}
+		ns, ok := h[i].Apply(s)
+		if !ok {
+			continue
+		}
+		done[i] = true
+		if gsearch(h, done, ns, left-1) {
+			return true
+		}
+		done[i] = false
+	}
+	return false
+}
+
+// CloneMap copies a small map.
+func CloneMap(m map[int]int) map[int]int {
+	n := make(map[int]int, len(m))
+	for k, v := range m {
+		n[k] = v
+	}
+	return n
+}
